@@ -275,22 +275,24 @@ fn search(memo: bool, len: usize, stable_only: bool) -> (Option<String>, usize, 
 
 /// bounded search with memoisation ON (the default): expected to reproduce
 fn c11_memo_search() -> (bool, String) {
-    quietly(|| match search(true, 4, false) {
+    let max_len = crate::bound(4, 6);
+    quietly(|| match search(true, max_len, false) {
         (Some(d), _, _) => (true, format!("{}; {} :: {}", RULES, OPS_TEXT, d)),
-        (None, s, _) => (false, format!("{}; {} :: {} runs (sequences of <= 4 operations ending in a query, 3 strategies): every answer equals the fresh engine's", RULES, OPS_TEXT, s)),
+        (None, s, _) => (false, format!("{}; {} :: {} runs (sequences of <= {} operations ending in a query, 3 strategies): every answer equals the fresh engine's", RULES, OPS_TEXT, s, max_len)),
     })
 }
 
 /// the same search with memoisation OFF: the engine keeps nothing between queries, so no stable difference may exist
 fn c11_no_memo_search() -> (bool, String) {
-    quietly(|| match search(false, 4, true) {
+    let max_len = crate::bound(4, 6);
+    quietly(|| match search(false, max_len, true) {
         (Some(d), _, _) => (true, format!("{}; {} :: {}", RULES, OPS_TEXT, d)),
         (None, s, u) => (
             false,
             format!(
-                "{}; {} :: {} runs (sequences of <= 4 operations ending in a query, 3 strategies): no answer differs reproducibly from the fresh engine's \
+                "{}; {} :: {} runs (sequences of <= {} operations ending in a query, 3 strategies): no answer differs reproducibly from the fresh engine's \
                  ({} differences did not survive 5 replays of the same history: see c11_identical_fresh_runs_disagree)",
-                RULES, OPS_TEXT, s, u
+                RULES, OPS_TEXT, s, max_len, u
             ),
         ),
     })
@@ -299,6 +301,7 @@ fn c11_no_memo_search() -> (bool, String) {
 /// no history: for every fact state reachable by <= 3 fact operations, both queries and the three strategies (memoisation off), a
 /// freshly built engine is asked 12 times on equal facts.  The property's first sentence says the 12 answers are equal.
 fn c11_identical_fresh_runs_disagree() -> (bool, String) {
+    let repeats = crate::bound(12, 200);
     quietly(|| {
         let mut states: Vec<Vec<Op>> = vec![vec![]];
         sequences(3, &mut |seq| {
@@ -321,13 +324,14 @@ fn c11_identical_fresh_runs_disagree() -> (bool, String) {
             for strategy in STRATEGIES {
                 for q in [Q1, Q2] {
                     tried += 1;
-                    let answers: Vec<Ans> = (0..12).map(|_| fresh(false, strategy, q, &f)).collect();
+                    let answers: Vec<Ans> = (0..repeats).map(|_| fresh(false, strategy, q, &f)).collect();
                     if answers.iter().any(|a| *a != answers[0]) {
                         let d = format!(
-                            "{} :: facts {}; strategy {:?}, memoisation off; 12 freshly built engines, each asked query({}) once on its own copy of these facts: {:?}",
+                            "{} :: facts {}; strategy {:?}, memoisation off; {} freshly built engines, each asked query({}) once on its own copy of these facts: {:?}",
                             RULES,
                             show(&f),
                             strategy,
+                            repeats,
                             q,
                             answers
                         );
@@ -341,7 +345,7 @@ fn c11_identical_fresh_runs_disagree() -> (bool, String) {
         }
         match other {
             Some(d) => (true, d),
-            None => (false, format!("{} :: {} (fact state, strategy, query) combinations, 12 fresh engines each: all 12 answers equal every time", RULES, tried)),
+            None => (false, format!("{} :: {} (fact state, strategy, query) combinations, {} fresh engines each: all {} answers equal every time", RULES, tried, repeats, repeats)),
         }
     })
 }
